@@ -96,8 +96,9 @@ def build(skel, kinds, key):
     """-> (yaml text, [(position description, kind, plaintext)])"""
     # secrets carry line ends of every flavour in the middle of the text;
     # plain slots get the one-line spelling
+    # ... and white-space of every kind in front of the text
     secret_plains = ["alpha one", "bravo2\r\nsecond line\nthird",
-                     "charlie three", "delta\rx"]
+                     "  charlie three", "\n\tdelta\rx"]
     simple = ["alpha one", "bravo2", "charlie three", "delta"]
     plains = [secret_plains[i] if is_secret_kind(kinds[i]) else simple[i]
               for i in range(len(kinds))]
